@@ -283,6 +283,13 @@ FbAccept(e) ==
 (* high half has been folded (the input is 0, or a multiple of f reaching  *)
 (* into the high half) the index -1 passes the test and memory far outside *)
 (* the operand is read and written (SIGSEGV).                              *)
+(* C16-srt-quick-half-digits (latent; met in the 8-bit tiny world only):   *)
+(* fb_srtn_low takes the table path fb_sqrt_low when an exponent of f is   *)
+(* even; that path keeps the even-indexed coefficients of a in             *)
+(* HALF = ceil((m div 2)/W) digits although there are ceil(m/2) of them -  *)
+(* one bit short when m div 2 is a multiple of the digit size (m = 17 with *)
+(* 8-bit digits; it would be 129, 257 with 64-bit digits): the square root *)
+(* of an element with coefficient x^(m-1) set is wrong.                    *)
 (* C16-cmp-dig-xor: fb_cmp_dig xors ALL digits of a into the digit b and   *)
 (* tests the result for zero: any a whose digits xor to b compares RLC_EQ. *)
 (* C16-fb2-slv-trace-one: fb2_slv(c, a) for Tr(a) = Tr_m(a1) = 0 (solvable)*)
@@ -338,6 +345,7 @@ SimTableInf(e) ==
         ELSE \E i \in 0..M, j \in 0..M :
                 /\ i + j >= 1
                 /\ EAdd(EMulNat(BFromNat(i), P, c), EMulNat(BFromNat(j), Q, c), c).inf
+HasEvenExponent(e) == e.pa % 2 = 0 \/ (e.pb # 0 /\ (e.pb % 2 = 0 \/ e.pc % 2 = 0))
 RECURSIVE XorDigits(_, _, _)
 XorDigits(raw, w, i) == IF i * w >= Len(raw) THEN <<>>
                         ELSE GAdd(BNorm(SubSeq(raw, i * w + 1, (i + 1) * w)), XorDigits(raw, w, i + 1))
@@ -353,6 +361,13 @@ FbKnownKey(e) ==
       [] e.op \in {"fb_exp", "fb_exp_slide"} /\ BBits(BNorm(e.e.d)) > e.m + 1
                 /\ e.crash = 0 /\ e.err # 0 /\ e.code = 1 /\ e.unch
             -> "C16-exp-slide-exponent-capacity"
+      [] e.op \in {"fb_srt", "fb_srt_quick"} /\ In1(e) /\ RanClean(e) /\ Len(e.c) = e.w * e.fd
+                /\ (e.m \div 2) % (8 * e.w) = 0 /\ HasEvenExponent(e) /\ BBit(A(e), e.m - 1) = 1
+                /\ V(e.c) # GSqrt(A(e), F(e))
+            -> "C16-srt-quick-half-digits"
+      [] e.op \in ItrOps /\ In1(e) /\ e.k < 0 /\ RanClean(e) /\ Len(e.c) = e.w * e.fd
+                /\ (e.m \div 2) % (8 * e.w) = 0 /\ HasEvenExponent(e)
+            -> "C16-srt-quick-half-digits"
       [] e.op = "fb_rdc_basic" /\ e.crash # 0 /\ FieldOk(e) /\ Len(e.t) = 2 * e.w * e.fd
                 /\ (V(e.t) = <<>> \/ BBits(V(e.t)) > 8 * e.w * e.fd)
                 /\ GModPoly(V(e.t), F(e)) = <<>>
